@@ -19,6 +19,7 @@ import (
 	"github.com/comdex-official/comdex/x/auctionsV2"
 	auctionsV2types "github.com/comdex-official/comdex/x/auctionsV2/types"
 	collectortypes "github.com/comdex-official/comdex/x/collector/types"
+	esmtypes "github.com/comdex-official/comdex/x/esm/types"
 	lendtypes "github.com/comdex-official/comdex/x/lend/types"
 	liqV2types "github.com/comdex-official/comdex/x/liquidationsV2/types"
 	markettypes "github.com/comdex-official/comdex/x/market/types"
@@ -170,7 +171,7 @@ func c10newFix(t *testing.T) *c10fix {
 }
 
 // the named accounts whose balances are printed after every op (order is the protocol)
-var c10names = []string{"b1", "b2", "b3", "b4", "auction", "collector", "owner", "keeper", "initiator", "reserve", "vault", "pool", "lendres", "poolin"}
+var c10names = []string{"b1", "b2", "b3", "b4", "auction", "collector", "owner", "keeper", "initiator", "reserve", "vault", "pool", "lendres", "poolin", "esm"}
 
 type c10seq struct {
 	poolMod   string // lend: module account of the debt pool
@@ -204,6 +205,8 @@ func (s *c10seq) acct(name string) sdk.AccAddress {
 			}
 			return s.f.app.AccountKeeper.GetModuleAddress(s.f.poolMod)
 		}
+	case "esm":
+		return s.f.app.AccountKeeper.GetModuleAddress(esmtypes.ModuleName)
 	case "lendres":
 		if s.f.lend {
 			return s.f.app.AccountKeeper.GetModuleAddress(lendtypes.ModuleName)
@@ -1189,6 +1192,12 @@ func (s *c10seq1) tick1(dt time.Duration) {
 	tc, ac := s.collTwa()
 	td, ad := s.debtTwa()
 	app := s.f.app
+	esmOn := false
+	if st, found := app.EsmKeeper.GetESMStatus(s.ctx, s.f.appID); found {
+		esmOn = st.Status
+	}
+	_, snap := app.EsmKeeper.GetSnapshotOfPrices(s.ctx, s.f.appID, s.p.coll.id)
+	_, wasOpen := s.auction1()
 	panicked, _ := try(func() { auctionv1.BeginBlocker(s.ctx, app.AuctionKeeper, app.AssetKeeper, app.CollectorKeeper, app.EsmKeeper) })
 	cl := "ok"
 	if panicked {
@@ -1201,7 +1210,22 @@ func (s *c10seq1) tick1(dt time.Duration) {
 		return "0"
 	}
 	s.tr.Count("tick1:" + cl)
-	s.tr.Line("dutch.v1.tick", i64(s.now.Unix()), u(tc), b(ac), u(td), b(ad), cl, s.state1())
+	if esmOn && wasOpen {
+		if _, open := s.auction1(); !open {
+			s.tr.Count("tick1:esm-wind-down")
+		}
+	}
+	s.tr.Line("dutch.v1.tick", i64(s.now.Unix()), u(tc), b(ac), u(td), b(ad), b(esmOn), b(snap), cl, s.state1())
+}
+
+// esmOn1 switches the app's emergency shutdown on (the way x/esm does when it executes: status record + price snapshot)
+func (s *c10seq1) esmOn1(withSnapshot bool) {
+	s.f.app.EsmKeeper.SetESMStatus(s.ctx, esmtypes.ESMStatus{AppId: s.f.appID, Executor: c10addr("keeper").String(), Status: true, StartTime: s.now, EndTime: s.now.Add(time.Hour)})
+	if withSnapshot {
+		tc, _ := s.collTwa()
+		s.f.app.EsmKeeper.SetSnapshotOfPrices(s.ctx, s.f.appID, s.p.coll.id, tc)
+	}
+	s.tr.Count("esm-on")
 }
 
 func c10genCfg1(f *c10fix, rng *Rng) c10cfg1 {
@@ -1327,6 +1351,9 @@ func (s *c10seq1) randomOps1(rng *Rng, cfg c10cfg1) {
 					nt = 1
 				}
 				s.setDebt(nt, !rng.Chance(15))
+			}
+			if rng.Chance(12) {
+				s.esmOn1(!rng.Chance(20))
 			}
 			s.tick1(time.Duration(dt) * time.Second)
 		}
@@ -1712,6 +1739,21 @@ func TestC10(t *testing.T) {
 	s1 = c10start1(t, f, tr, c1)
 	s1.tick1(250 * time.Second)
 	s1.bid1("b1", sdk.NewInt(1000000)) // collateral sold out below the target: the collector covers the rest
+	// emergency-shutdown wind-down, both branches: less than the principal collected / at least the principal collected
+	c1 = c10cfg1{pair: 0, amountIn: sdk.NewInt(1000000), amountOut: sdk.NewInt(1000000), dropTo: 1400000, T: 300, buffer: "1.2", cusp: "0.6", collector: 0}
+	if s1 = c10start1(t, f, tr, c1); s1 != nil {
+		s1.tick1(100 * time.Second)
+		s1.bid1("b1", sdk.NewInt(200000))
+		s1.esmOn1(true)
+		s1.tick1(100 * time.Second) // window not over: price update only
+		s1.tick1(150 * time.Second) // window over, ESM on: collateral back to the vault module, collected debt burned
+	}
+	if s1 = c10start1(t, f, tr, c1); s1 != nil {
+		s1.tick1(100 * time.Second)
+		s1.bid1("b1", sdk.NewInt(750000))
+		s1.esmOn1(true)
+		s1.tick1(250 * time.Second) // collected ≥ principal: principal burned, excess to the collector, collateral to the ESM module
+	}
 	// D8 on a live first-generation auction: block time exactly at EndTime, window 10 s
 	c1 = c10cfg1{pair: 0, amountIn: sdk.NewInt(1000000), amountOut: sdk.NewInt(1000000), dropTo: 1400000, T: 10, buffer: "1.2", cusp: "0.7", collector: 0}
 	s1 = c10start1(t, f, tr, c1)
